@@ -610,11 +610,18 @@ func (st *execState) apply(op *sx.Node) *sx.Node {
 			return (sx.Tag("err"))
 		}
 	case "mksnap":
-		s := &ysgo.Snapshot{CurrentNode: op.L[2].Text(), Variables: map[string]variable.Value{}, VisitedNodes: map[string]int{}}
+		// a snapshot written by hand: a map the host has nothing to put in stays nil
+		s := &ysgo.Snapshot{CurrentNode: op.L[2].Text()}
 		for _, kv := range op.L[3].L {
+			if s.Variables == nil {
+				s.Variables = map[string]variable.Value{}
+			}
 			s.Variables[kv.L[0].Text()] = *decValue(kv.L[1])
 		}
 		for _, kv := range op.L[4].L {
+			if s.VisitedNodes == nil {
+				s.VisitedNodes = map[string]int{}
+			}
 			s.VisitedNodes[kv.L[0].Text()] = int(kv.L[1].Int())
 		}
 		st.snaps[int(op.L[1].Int())] = s
